@@ -65,7 +65,7 @@ def align_case(draw, allow_empty=False):
     if alld and draw(st.integers(0, 3)) == 0:
         axis = draw(st.sampled_from(alld))
     return {"inputs": inputs, "join": draw(st.sampled_from(["outer", "outer", "inner"])), "sort": draw(st.sampled_from([False, False, True])), "axis": axis,
-            "rehearse": draw(st.integers(0, 3)) == 0, "positional": draw(st.integers(0, 3)) == 0}
+            "rehearse": draw(st.integers(0, 3)) == 0, "positional": draw(st.integers(0, 3)) == 0, "sort_as": draw(st.sampled_from(["bool", "bool", "numpy", "int"]))}
 
 
 def strategy(tier):
@@ -205,12 +205,19 @@ def run_case(case):
     if axis is not None:
         kw["axis"] = axis
     what = "align(%s, join=%s, sort=%s, axis=%s)" % (core.jsonable([i.get("spec", i.get("v")) for i in inputs]), join, sort, axis)
+    sort_arg = sort
+    if case.get("sort_as") == "numpy":
+        sort_arg = np.bool_(sort)           # the option as it comes out of a comparison (a NumPy boolean), or as 0 / 1
+        what += " [sort given as numpy.bool_]"
+    elif case.get("sort_as") == "int":
+        sort_arg = int(sort)
+        what += " [sort given as 0 / 1]"
     if case.get("positional"):
         # the documented parameter order align(arrays, join, axis, sort), arguments given by position
         what += " [join, axis, sort by position]"
-        res = lib(lambda: da.align(list(objs), join, axis, sort), what=what, sig=sig)
+        res = lib(lambda: da.align(list(objs), join, axis, sort_arg), what=what, sig=sig)
     else:
-        res = lib(lambda: da.align(list(objs), join=join, sort=sort, **kw), what=what, sig=sig)
+        res = lib(lambda: da.align(list(objs), join=join, sort=sort_arg, **kw), what=what, sig=sig)
     check(isinstance(res, (list, tuple)) and len(res) == len(objs), "result-count", {"what": what, "got": len(res) if hasattr(res, "__len__") else None}, sig)
 
     # expected joined label sets per aligned dimension
